@@ -18,7 +18,10 @@ from aioslsk.network.connection import PeerConnection, ServerConnection, PeerCon
 from aioslsk.events import EventBus
 from aioslsk.client import SoulSeekClient
 from aioslsk.commands import GetUserStatusCommand
-from aioslsk.protocol.messages import GetUserStatus, CannotConnect, PeerTransferReply, PeerUploadFailed
+from aioslsk.protocol.messages import (GetUserStatus, CannotConnect, PeerTransferReply, PeerUploadFailed, PeerSharesReply,
+                                       PeerSharesRequest)
+import aioslsk.protocol.messages as _messages
+from aioslsk.protocol.primitives import MessageDataclass
 
 PROPERTY = 'C12'
 
@@ -57,6 +60,9 @@ def mk_net(loop):
 WAITER_KINDS = ['srv_status_any', 'srv_status_user', 'srv_status_user_status', 'srv_status_pred_then_user',
                 'srv_cannot_connect', 'peer_reply_ticket', 'peer_reply_any', 'peer_failed_file', 'registered_status_user',
                 'peer_reply_reason_none', 'peer_reply_ticket_reason']
+# waiters used by the 'othertype' harness only (classes the library really waits for whose message ids are shared with
+# distributed / server messages)
+EXTRA_WAITER_KINDS = ['peer_shares_reply_any', 'peer_shares_request_any']
 MSG_KINDS = ['srv_status', 'srv_cannot_connect', 'peer_reply', 'peer_failed']
 
 
@@ -88,6 +94,10 @@ def make_waiter(c, net, kind, i):
                 [('reason', 'eq', tok(c, f'r_w{i}')), ('filesize', 'eq', None)])
     elif kind == 'peer_failed_file':
         spec = (PeerConnection, PeerUploadFailed.Request, tok(c, f'p_w{i}'), [('filename', 'eq', tok(c, f'f_w{i}'))])
+    elif kind == 'peer_shares_reply_any':
+        spec = (PeerConnection, PeerSharesReply.Request, tok(c, f'p_w{i}'), [])
+    elif kind == 'peer_shares_request_any':
+        spec = (PeerConnection, PeerSharesRequest.Request, tok(c, f'p_w{i}'), [])
     else:
         raise symex.HarnessError(kind)
     conn_cls, msg_cls, peer, fl = spec
@@ -255,6 +265,75 @@ def h_matches(c):
     fut.cancel(), fut2.cancel(), fut3.cancel()
 
 
+def all_message_classes():
+    """every Request/Response message dataclass the real protocol module defines (read from the code under test)"""
+    import inspect
+    out = []
+    for _, o in sorted(vars(_messages).items()):
+        if not inspect.isclass(o):
+            continue
+        for sub in ('Request', 'Response'):
+            k = getattr(o, sub, None)
+            if inspect.isclass(k) and issubclass(k, MessageDataclass) and k.__qualname__ == f'{o.__name__}.{sub}':
+                out.append(k)
+    return out
+
+
+def _field_value(c, f, j):
+    """a symbolic value for a simple field (names/ids can therefore coincide with what a waiter asks for); anything
+    else stays None - matches() only reads attributes"""
+    t = f.type if isinstance(f.type, str) else getattr(f.type, '__name__', str(f.type))
+    t = str(f.type) if not isinstance(f.type, type) else f.type.__name__
+    if t in ('str', 'typing.Optional[str]'):
+        return tok(c, f'{f.name[0]}_o{j}{f.name}')
+    if t in ('int', 'typing.Optional[int]'):
+        return c.fresh_int(f'{f.name}_o{j}', 0, 2**32 - 1)
+    if t == 'bool':
+        return c.fresh_bool(f'{f.name}_o{j}')
+    return None
+
+
+def h_othertype(c, kind, scope='colliding'):
+    """"...and with no other message": one pending request of kind `kind`; a message of ANOTHER class arrives on a
+    connection of the expected class from a (symbolic, possibly the expected) peer - classes sharing the message id
+    with the expected class (ids overlap between the server / peer / distributed name spaces), the Request/Response
+    sibling, and (scope='all') every message class of the protocol module; simple fields are symbolic."""
+    import dataclasses
+    loop = VLoop()
+    net = mk_net(loop)
+    fut, spec = loop.call(make_waiter, c, net, kind, 0)
+    conn_cls, msg_cls, peer, fl = spec
+    classes = [k for k in all_message_classes() if k is not msg_cls]
+    if scope == 'colliding':
+        outer = msg_cls.__qualname__.split('.')[0]
+        classes = [k for k in classes if int(k.MESSAGE_ID) == int(msg_cls.MESSAGE_ID) or k.__qualname__.split('.')[0] == outer]
+    if not classes:
+        c.reach('othertype_end')
+        fut.cancel()
+        return
+    other = classes[c.choose(len(classes), 'other_class')]
+    c.note('other_class', other.__qualname__)
+    if conn_cls is ServerConnection:
+        conn = ServerConnection('srv', 2242, net)
+    else:
+        conn = PeerConnection('1.2.3.4', 5, net, username=tok(c, 'p_m0'))
+    msg = other(**{f.name: _field_value(c, f, 0) for f in dataclasses.fields(other) if f.init})
+    sig = [kind, 'same_id' if int(other.MESSAGE_ID) == int(msg_cls.MESSAGE_ID) else 'other_id']
+    try:
+        m = fut.matches(conn, msg)
+    except Exception as e:  # noqa
+        m = e
+    c.check(m is False, 'other_type_never_matches', sig=sig, info={'class': other.__qualname__, 'matches': repr(m)})
+    _, exc = drive_inline(loop, net.on_message_received(msg, conn))
+    c.check(exc is None, 'dispatch_no_exception', sig=sig, info=repr(exc))
+    loop.run_ready()
+    c.check(not fut.done(), 'completed_iff_answers', sig=sig + ['othertype'], info={'class': other.__qualname__})
+    c.reach('othertype_end')
+    fut.cancel()
+    loop.run_ready()
+    loop.cleanup()
+
+
 def h_timeout(c, api='server', timeout=10, scenario='silence'):
     """wait_for_*_message with nothing (or only non-answers) arriving: TimeoutError at
     exactly the time-out, nothing left behind, later traffic unharmed."""
@@ -391,7 +470,10 @@ META = {
                    'virtual-time loop. Field values of waiters and messages (uint32 tickets, status, user/peer/file name tokens, predicate '
                    'thresholds) are z3 values: one path covers every value combination with the same match pattern, and z3 decides '
                    '"completed iff the reference says it answers" on each path. Which API registered the waiter, which were cancelled '
-                   'in the same loop iteration, message kinds and back-to-back delivery are enumerated.',
+                   'in the same loop iteration, message kinds and back-to-back delivery are enumerated. Harness `othertype`: one pending request and a '
+                   'message of every OTHER message class the real protocol module defines (158 classes; ids overlap between the server, '
+                   'peer and distributed name spaces), on a connection of the expected class from a symbolic (possibly the expected) '
+                   'peer, simple fields symbolic: never matches, never completes the request.',
     'functions': [ExpectedResponse.matches, Network.create_server_response_future, Network.create_peer_response_future,
                   Network.register_response_future, Network._remove_response_future, Network.on_message_received,
                   Network.wait_for_server_message, Network.wait_for_peer_message, SoulSeekClient.execute,
@@ -401,11 +483,11 @@ META = {
               'user/peer/file names are Int tokens while symbolic and strings in concrete replay (only ==/!= is applied to them)'],
     'data_variables': ['ticket (0..2^32-1)', 'status 0..3', 'predicate threshold k', 'user / peer / file name tokens (4 values each)',
                        'privileged / allowed flags'],
-    'discriminants': ['registration API and matcher shape per waiter (11 kinds incl. None-valued matchers)', 'optional fields of the reply absent/present', 'cancelled-this-iteration per waiter', 'message kind (4)',
+    'discriminants': ['registration API and matcher shape per waiter (11 kinds incl. None-valued matchers)', 'optional fields of the reply absent/present', 'cancelled-this-iteration per waiter', 'message kind (4)', 'class of the non-answering message (all message classes of aioslsk.protocol.messages, read from the code under test)',
                       'number of messages, back-to-back or with a loop turn in between', 'timeout scenario'],
     'bounds': {'quick': {'waiters': '1..2 (all 11 kinds, all pairs)', 'messages_back_to_back': 2, 'timeouts': [10, 60]},
                'thorough': {'waiters': '1..3 (all kinds; triples over 5 representative kinds)', 'messages_back_to_back': 2}},
-    'outside': ['more waiters/messages than the bound', 'other message classes (matching code is class-generic)',
+    'outside': ['more waiters/messages than the bound', 'answering messages of classes other than the four used (matching code is class-generic); list/record fields of non-answering messages are None',
                 'real sockets: messages are handed to on_message_received directly, as DataConnection._perform_message_callback does'],
     'assumptions': ['asyncio Future/Task semantics of CPython 3.12', 'async_timeout == asyncio.timeout semantics'],
 }
@@ -425,6 +507,9 @@ def jobs(tier):
             for b in rep:
                 for d in rep:
                     out.append({'harness': 'dispatch', 'fn': h_dispatch, 'params': {'kinds': [a, b, d]}, 'requires': ['dispatched']})
+    for k in WAITER_KINDS + EXTRA_WAITER_KINDS:
+        out.append({'harness': 'othertype', 'fn': h_othertype, 'params': {'kind': k, 'scope': 'all'},
+                    'requires': ['othertype_end']})
     for api in ('server', 'peer'):
         for sc in ('silence', 'non_answer', 'cancelled_then_message', 'message_in_timeout_iteration'):
             for to in ([10] if tier == 'quick' else [0.5, 10, 60]):
